@@ -13,6 +13,7 @@ from linear_operator.operators._linear_operator import LinearOperator
 from linear_operator.operators.root_linear_operator import RootLinearOperator
 from linear_operator.operators.triangular_linear_operator import _TriangularLinearOperatorBase, TriangularLinearOperator
 
+from linear_operator.utils.broadcasting import _matmul_broadcast_shape
 from linear_operator.utils.memoize import cached
 
 
@@ -215,6 +216,8 @@ class CholLinearOperator(RootLinearOperator):
         right_tensor: Union[Float[Tensor, "... N P"], Float[Tensor, " N"]],
         left_tensor: Optional[Float[Tensor, "... O N"]] = None,
     ) -> Union[Float[Tensor, "... N P"], Float[Tensor, "... N"], Float[Tensor, "... O P"], Float[Tensor, "... O"]]:
+        # the root's _cholesky_solve hooks assume a right-hand side with the operator's number of rows
+        _matmul_broadcast_shape(self.shape, right_tensor.shape)
         is_vector = right_tensor.ndim == 1
         if is_vector:
             right_tensor = right_tensor.unsqueeze(-1)
